@@ -1,7 +1,8 @@
 """C06 part (ii): the real SumTrees collation path.
 
-TreeProcessor.analyze_trees is run on 1-4 small tree files under /var/tmp/dv-C06 in serial mode and
-with num_processes 2 .. files+2 (real multiprocessing).  The schedule that really happened (which
+TreeProcessor.analyze_trees is run on 1-4 small tree files (Newick, or NEXUS - then files after the
+first may hold NO tree: TAXA block only / empty TREES block - with a burn-in of 0-2 trees per file)
+under /var/tmp/dv-C06 in serial mode and with num_processes 2 .. files+2 (real multiprocessing).  The schedule that really happened (which
 worker process read which file, in which order the results were merged) is observed through two
 wrappers installed from outside (no change to the library):
   * sumtrees._read_into_tree_array  - tags the worker's TreeArray with the files it was given
@@ -41,16 +42,23 @@ def gen_case(rng, idx):
         for t in pool:
             c06.make_ultrametric(t, rng)
             t["len"] = None
+    # NEXUS sources may hold NO tree (TAXA block only / empty TREES block): a worker that fetches such a
+    # file contributes nothing, serial mode skips a file index (wave 7)
+    schema = "nexus" if rng.random() < 0.4 else "newick"
     files = []
+    forms = []
     for f in range(nfiles):
         n = rng.choice([1, 1, 2, 3, 4]) if f > 0 else rng.choice([1, 2, 3])
+        if schema == "nexus" and f > 0 and rng.random() < 0.3:
+            n = 0
+        forms.append("trees" if n else rng.choice(["taxa-only", "empty-block"]))
         files.append([{"tree": rng.randrange(n_distinct),
                        "weight": rng.choice([512, 1024, 2048, 3072]) if use_w else None} for _ in range(n)])
     # the first tree of the first file defines the taxa (discover_taxa): it has all of them by construction
-    burnin = rng.choice([0, 0, 0, 1])
+    burnin = rng.choice([0, 0, 0, 1]) if schema == "newick" else rng.choice([0, 1, 1, 2])
     mixed = mode.startswith("implicit") and nfiles > 1 and rng.random() < 0.12
     return {"kind": "sumtrees", "id": idx, "ntax": ntax, "mode": mode, "ages_on": ages_on, "use_w": use_w,
-            "pool": pool, "files": files, "burnin": burnin, "mixed_rooting_files": mixed,
+            "pool": pool, "files": files, "burnin": burnin, "mixed_rooting_files": mixed, "schema": schema, "forms": forms,
             "nprocs": sorted(set([2, nfiles, nfiles + 1, nfiles + 2]) - {1}),
             "repeats": 1}
 
@@ -67,12 +75,20 @@ def file_token(case, fidx):
 
 def write_files(case, d):
     paths = []
+    nexus = case.get("schema", "newick") == "nexus"
     for i, f in enumerate(case["files"]):
-        p = os.path.join(d, "f%d.tre" % i)
+        p = os.path.join(d, "f%d.%s" % (i, "nex" if nexus else "tre"))
         with open(p, "w") as fh:
-            for occ in f:
+            if nexus:
+                fh.write("#NEXUS\nBEGIN TAXA;\n  DIMENSIONS NTAX=%d;\n  TAXLABELS %s;\nEND;\n"
+                         % (case["ntax"], " ".join("t%d" % k for k in range(case["ntax"]))))
+                if f or case["forms"][i] == "empty-block":
+                    fh.write("BEGIN TREES;\n")
+            for j, occ in enumerate(f):
                 w = "" if occ["weight"] is None else "[&W %r] " % (occ["weight"] * trees.UNIT)
-                fh.write(file_token(case, i) + w + trees.newick(case["pool"][occ["tree"]]) + "\n")
+                fh.write(("  TREE tr%d = " % j if nexus else "") + file_token(case, i) + w + trees.newick(case["pool"][occ["tree"]]) + "\n")
+            if nexus and (f or case["forms"][i] == "empty-block"):
+                fh.write("END;\n")
         paths.append(p)
     return paths
 
@@ -152,7 +168,7 @@ def run_processor(case, paths, nproc):
         try:
             with core.alarm(90):
                 tp = sumtrees.TreeProcessor(num_processes=nproc, **settings(case))
-                ta = tp.analyze_trees(tree_sources=list(paths), schema="newick", taxon_namespace=None,
+                ta = tp.analyze_trees(tree_sources=list(paths), schema=case.get("schema", "newick"), taxon_namespace=None,
                                       tree_offset=case["burnin"], preserve_underscores=False)
             res["state"] = c06.dump_state(ta)
             res["summary"] = summary_of(ta)
@@ -173,7 +189,8 @@ def file_records(case, paths):
     rooted = settings(case)["is_source_trees_rooted"]
     rooting = dendropy.get_rooting_argument(is_rooted=rooted)
     first = None
-    for t in dendropy.Tree.yield_from_files([paths[0]], schema="newick"):
+    schema = case.get("schema", "newick")
+    for t in dendropy.Tree.yield_from_files([paths[0]], schema=schema):
         first = t
         break
     labels = [t.label for t in first.taxon_namespace]
@@ -184,7 +201,7 @@ def file_records(case, paths):
         def load():
             ns = dendropy.TaxonNamespace(labels)
             ns.is_mutable = False
-            return ns, list(dendropy.Tree.yield_from_files([p], schema="newick", taxon_namespace=ns, rooting=rooting,
+            return ns, list(dendropy.Tree.yield_from_files([p], schema=schema, taxon_namespace=ns, rooting=rooting,
                                                            store_tree_weights=case["use_w"]))
         ns1, l1 = load()
         ns2, l2 = load()
@@ -249,6 +266,8 @@ def run_cli(case, paths, d):
     res = {}
     env = dict(os.environ)
     base = [sys.executable, "-m", "dendropy.application.sumtrees", "-q", "-r", "--no-meta-comments", "-F", "newick"]
+    if case.get("schema", "newick") != "newick":
+        base += ["-i", case["schema"]]
     if case["mode"] == "explicit-rooted":
         base.append("--rooted")
     elif case["mode"] == "explicit-unrooted":
@@ -411,6 +430,9 @@ def stage(ctx, tier):
     for c in cases:
         ctx.count("sumtrees:mode:" + c["mode"])
         ctx.count("sumtrees:files:%d" % len(c["files"]))
+        ctx.count("sumtrees:schema:%s" % c.get("schema", "newick"))
+        ctx.count("sumtrees:burnin:%d" % c["burnin"])
+        ctx.count("sumtrees:files-without-trees:%d" % sum(1 for f in c["files"] if not f))
         try:
             obs = observe(c)
         except Exception as e:
